@@ -37,7 +37,7 @@ def run(ctx):
     R = ctx.R
     prog = ctx.program(UNITS, thorough_all=False)
     R.explanation = ("Decides the embedding discipline of the launch-size and index-mapping builders (an abstract interpretation over operator-top sets with the repository's precedence table), that all launcher backends share "
-                     "those builders and differ only in an index spelling that is a function of the loop index, and that count and mapping read the same header fields. Does not decide the ceiling-division arithmetic or run-time empty ranges.")
+                     "those builders and differ only in an index spelling that is a function of the loop index, and that count and mapping read the same header fields. The closed forms of count and mapping are derived per header configuration and compared with the sequential loop's (C17-R5).")
     R.rule("C17-R1", "user expression embedded in a built operator node only parenthesised / tighter-binding", floor=14)
     R.rule("C17-R2", "launcher backends share count/mapping; hardware index spelling depends on the loop index; dims stored by matching index", floor=16)
     R.rule("C17-R3", "count and mapping use the same header fields", floor=5)
@@ -216,9 +216,10 @@ def run(ctx):
 
 
 META = {
-    "technique": "PAREN: abstract interpretation over operator-top sets of the expression builders, with binding strengths read from the repository's operator table and sanitiser soundness re-checked; class-hierarchy / data-dependence facts for the backend index spellings; field-use agreement",
+    "technique": "PAREN: abstract interpretation over operator-top sets of the expression builders, with binding strengths read from the repository's operator table and sanitiser soundness re-checked; TERM: abstract execution of the two builders per header configuration (direction x inclusive x stepped) to the term they return, brought to the unique normal form numerator/denominator + outside and compared with the sequential loop's closed form; class-hierarchy / data-dependence facts for the backend index spellings; field-use agreement",
     "level": "Static decision that the launch-size builder and the index->value builder embed every user-supplied expression (initial value, bound, step, hardware index) parenthesised or under a looser operator, for every operator a user "
              "expression may have at its top; that CUDA, HIP, OpenCL, Metal and DPC++ all use these shared builders and differ only in an index spelling that is an injective function of the loop index, stored/read under the same "
-             "dimension; and that count and mapping read the same validated header fields. Backends other than Serial/OpenMP cannot even be executed in this sandbox.",
-    "note": "Does not decide the ceiling-division arithmetic, empty or negative run-time ranges, or the Serial/OpenMP paths (they keep the loop verbatim).",
+             "dimension; that count and mapping read the same validated header fields; and that for each of the 8 header configurations the launch count is exactly (larger - smaller [+1] [+ step - 1]) [/ step] and the k-th value is init +/- [step *] k - "
+             "as polynomial identities, hence for all run-time values including those that make the range empty. Backends other than Serial/OpenMP cannot even be executed in this sandbox.",
+    "note": "Does not decide how the launcher treats a count <= 0 at run time (device back ends cannot run here), overflow of the count arithmetic, or the Serial/OpenMP paths (they keep the loop verbatim).",
 }
